@@ -160,6 +160,14 @@ let dispatch (op : string) (args : jv list) : jv =
                       JList [JStr p; jbool (contains ops h p);
                              (match lookup ops h p with Ok d -> JStr d.d_name | Err _ -> JNull)]) probes]
   | "fromdict", [d] -> of_res jgraph (fromdict ops d)
+  | "asdict_simplified", [g] -> of_res (fun x -> x) (asdict_simplified ops (graph_arg g))
+  | "stringify", [d] -> of_res (fun x -> x) (stringify_infinities ops d)
+  | "unstringify", [d] -> of_res (fun x -> x) (unstringify_infinities ops d)
+  | "no_nulls", [d] -> of_res (fun () -> JNull) (no_null_values ops d)
+  | "load_post", [d] -> of_res jgraph (load_post ops d)
+  | "load_asdict_post", [d] -> of_res (fun x -> x) (load_asdict_post ops d)
+  | "dump_pre", [j; s; g] ->
+      of_res (fun x -> x) (dump_pre ops (j = JBool true) (s = JBool true) (graph_arg g))
   | "close", [a; b; r; t] ->
       jbool (close_graph ops (num_arg r) (num_arg t) (graph_arg a) (graph_arg b))
   | _ -> failwith ("unknown op " ^ op)
